@@ -8,7 +8,7 @@ from typing import Any, Optional
 from ..constfold import EnumMember, NotConstant
 from ..context import Ctx
 from ..match import ANYP, H, affine, decision_table, eval_bool, is_atom, match, resolve_ite, strip, UnknownAtom
-from ..report import AnalysisError, Rule
+from ..report import AnalysisError, Rule, Unproven
 from ..srcmodel import FuncInfo
 from ..terms import Summary, Term, show, subterms
 from .lib import (cond_str, exc_is, exc_name, fail, fcmp_atom, icmp, icmp_atom, is_none_atom, live_exits, opt_atom,
@@ -412,7 +412,7 @@ class Notes:
             try:
                 res = ctx.fold.call_function(fq, [("val", EnumMember(NTI, name, v))], {}, 0)
             except NotConstant as e:
-                raise AnalysisError(f"cannot fold {fq} over NoteTrackIndex.{name}: {e}")
+                raise Unproven(fq, f"cannot evaluate {fq} over NoteTrackIndex.{name}: {e}")
             if res:
                 out.add(v)
         return out
@@ -689,7 +689,7 @@ class Notes:
                 if ctx.fold.fold(t2):
                     out.add(v)
             except NotConstant as e:
-                raise AnalysisError(f"cannot fold lane predicate for {name}: {e}")
+                raise Unproven("lane predicate", f"cannot evaluate the lane predicate for NoteTrackIndex.{name}: {e}")
         return out
 
     def check_refine(self, r: Rule, f: FuncInfo) -> None:
